@@ -62,8 +62,17 @@ class RecSource(ScheduleSource):
         self.rec.add("poll_ok", src=self.idx, n=n, ids=[s.schedule_id for s in listed])
         return listed
 
-    def pre_send(self, task: ScheduledTask) -> None:
+    def pre_send(self, task: ScheduledTask) -> Any:
         self.rec.add("pre_send", src=self.idx, sid=task.schedule_id)
+        if task.schedule_id in self.spec.get("cancel", []):
+            if self.spec.get("pre_async"):
+                async def _c() -> None:
+                    raise ScheduledTaskCancelledError
+                return _c()
+            raise ScheduledTaskCancelledError
+        if self.spec.get("pre_async"):
+            return asyncio.sleep(0)
+        return None
 
     def post_send(self, task: ScheduledTask) -> None:
         self.rec.add("post_send", src=self.idx, sid=task.schedule_id)
@@ -169,6 +178,31 @@ def gen_c15_spec(rng: random.Random, minutes_max: int) -> Dict[str, Any]:
     if rng.random() < 0.3:
         spec["kick_fail"] = sorted(rng.sample(range(nk), rng.randint(1, 4)))
     return spec
+
+
+def gen_c15_long(rng: random.Random) -> Dict[str, Any]:
+    """One scheduler process running for more than a day: expressions restricted by day-of-month, month or
+    weekday match at a wall-clock time on one day and not at the same time on the next."""
+    day = datetime(rng.randint(2021, 2029), rng.randint(1, 12), rng.randint(1, 27), tzinfo=timezone.utc)
+    start = S.to_us(day) + rng.choice([23 * 60 + 58, 12 * 60, 0, 6 * 60 + 30]) * M + rng.choice([500_000, 30_000_000, 59_900_000])
+    minutes = rng.randint(1445, 2000)
+    items: List[Dict[str, Any]] = []
+    for i in range(rng.randint(2, 4)):
+        at = S.EPOCH + (start + rng.randint(1, minutes - 1) * M) * S.US
+        kind = rng.choice(["dom", "dow", "mon", "hour"])
+        mi, ho = at.minute, at.hour
+        if kind == "dom":
+            expr = f"{mi} {ho} {at.day} * *"
+        elif kind == "dow":
+            expr = f"{mi} {ho} * * {at.isoweekday() % 7}"
+        elif kind == "mon":
+            expr = f"{mi} {ho} {at.day} {at.month} *"
+        else:
+            expr = f"{mi} {ho} * * *"
+        if rng.random() < 0.3:
+            expr = expr.replace(f"{mi} ", "*/30 ", 1)
+        items.append({"id": f"c{i}", "cron": expr, "offset": rng.choice([None, None, 3600, "Asia/Kolkata"]), "add_at": 0.0})
+    return {"start_us": start, "minutes": minutes, "sources": [{"items": items, "lat": 0}], "kick_lat": {}, "kick_fail": [], "long": True}
 
 
 def run_c15(spec: Dict[str, Any]) -> "tuple[Rec, Dict[str, Any]]":
@@ -304,6 +338,15 @@ def oracle_c15(rec: Rec, info: Dict[str, Any], spec: Dict[str, Any]) -> "tuple[L
         elif e["k"] == "kick":
             kicks[e["sid"]].append(e)
     items = {it["id"]: (si, it) for si, s in enumerate(spec["sources"]) for it in s["items"]}
+    # ---- (1b) a schedule's send goes through the hooks of the source that listed it, nobody else's
+    for e in ev:
+        if e["k"] in ("pre_send", "post_send") and e["sid"] in items and items[e["sid"]][0] != e["src"]:
+            v.append(Violation("hooks-on-wrong-source", f"{e['k']} for schedule {e['sid']} (listed by source {items[e['sid']][0]}) was called on source {e['src']}"))
+            break
+    for sid, ks_ in kicks.items():
+        if sid in items and len(pre[sid]) != len(ks_):
+            v.append(Violation("kick-count", f"{sid}: {len(pre[sid])} pre_send calls on its source but {len(ks_)} kicks"))
+            break
     # ---- (2) cron schedules
     for sid, (si, it) in items.items():
         if "cron" not in it:
@@ -410,7 +453,8 @@ class C15(Check):
     pid = "C15"
     rule = ("Scenario = real run_scheduler_loop(TaskiqScheduler(recording broker, 1-3 recording sources)) on the "
             "virtual-time loop with the scheduler module's wall clock tied to it; start instants with microsecond "
-            "resolution (incl. xx:59.9, xx:59.999999), 4-30 (quick) / 4-120 (thorough) virtual minutes; cron schedules "
+            "resolution (incl. xx:59.9, xx:59.999999), 4-30 (quick) / 4-120 (thorough) virtual minutes, every 25th run "
+            "longer than a day (1445-2000 minutes) with day/weekday/month-restricted expressions; cron schedules "
             "(fixed and steered expressions, timedelta and IANA offsets) and one-shot schedules (around minute "
             "boundaries +-2 s, already past, random; naive/UTC/zone), dynamic add/remove between polls, "
             "get_schedules() latency <1 s and failures on random calls, kick() latency up to 70 s and failures on "
@@ -420,7 +464,8 @@ class C15(Check):
             "exactly one kick, not before T, <=1 s after max(T, first listing); loop never stops. Non-trivial: >=1 "
             "due cron minute or one-shot judged; distinct = distinct event sequences (kind, schedule, minute).")
     floors = {"counters.polls": 3000, "counters.cron_minutes_checked": 3000, "counters.cron_due_minutes": 500,
-              "counters.oneshots_checked": 150, "events.poll_fail": 30, "events.kick_fail": 20}
+              "counters.oneshots_checked": 150, "events.poll_fail": 30, "events.kick_fail": 20,
+              "counters.runs_longer_than_a_day": 20}
     quick_cases = 1280
     thorough_cases = 12000
     thorough_time = 420.0
@@ -428,8 +473,13 @@ class C15(Check):
                    "one-shots whose own send was made to fail are not judged (only that others are unaffected)"]
 
     def cases(self, rng: random.Random, tier: str, shard: int, nshards: int) -> Iterator[Any]:
+        i = 0
         while True:
-            yield gen_c15_spec(rng, 30 if tier == "quick" else 120)
+            i += 1
+            if i % 25 == 0:
+                yield gen_c15_long(rng)
+            else:
+                yield gen_c15_spec(rng, 30 if tier == "quick" else 120)
 
     def run_case(self, spec: Dict[str, Any]) -> CaseResult:
         cr = CaseResult()
@@ -437,6 +487,8 @@ class C15(Check):
         v, cnt = oracle_c15(rec, info, spec)
         cr.violations += v
         cr.counters.update(cnt)
+        if spec.get("long"):
+            cr.counters["runs_longer_than_a_day"] += 1
         for e in rec.ev:
             cr.events[e["k"]] += 1
         cr.nontrivial = cnt["cron_due_minutes"] + cnt["oneshots_checked"] > 0
@@ -718,7 +770,8 @@ def gen_c16b(rng: random.Random) -> Dict[str, Any]:
     return {"mode": "label_source", "tasks": tasks, "fire_seed": rng.randint(0, 10 ** 9), "nfire": nfire,
             # relist: list again before every firing; otherwise fire several schedules of one listing (what the
             # scheduler loop does when several one-shots are due in the same poll)
-            "relist": rng.random() < 0.5}
+            "relist": rng.random() < 0.5,
+            "shared_default": rng.choice([None, "own", "own", "foreign"])}
 
 
 def _entry_key(task: str, e: Any) -> Any:
@@ -733,6 +786,10 @@ def run_c16b(spec: Dict[str, Any]) -> "tuple[List[Violation], Any]":
     broker = KBroker(rec)
     foreign = PlainBroker()
     shared = AsyncSharedBroker()
+    if spec.get("shared_default") == "own":
+        shared.default_broker(broker)  # shared tasks are *sent* through the source's broker; they still are not its tasks
+    elif spec.get("shared_default") == "foreign":
+        shared.default_broker(foreign)
     obs: Dict[str, Any] = {"listed": [], "fired": []}
 
     def noop() -> None:
@@ -847,6 +904,57 @@ def run_c16b(spec: Dict[str, Any]) -> "tuple[List[Violation], Any]":
     return v, obs
 
 
+def gen_c16c(rng: random.Random) -> Dict[str, Any]:
+    """Workload C: the firing path as the scheduler loop drives it - several sources, each with schedules that are
+    due, some of them cancelled by their own source's pre_send."""
+    base = rng.randint(S.to_us(datetime(2020, 1, 1)), S.to_us(datetime(2030, 1, 1)))
+    base -= base % M
+    start = base + rng.choice([0, 1, 20_000_000, 59_000_000])
+    sources = []
+    n = 0
+    for _si in range(rng.randint(2, 3)):
+        items: List[Dict[str, Any]] = []
+        for _ in range(rng.randint(1, 3)):
+            if rng.random() < 0.6:
+                items.append({"id": f"c{n}", "cron": rng.choice(["* * * * *", "* * * * *", "*/2 * * * *"]), "offset": None, "add_at": 0.0})
+            else:
+                items.append({"id": f"o{n}", "time_us": start + rng.choice([-5_000_000, 10_000_000, 95_000_000]), "tz": None, "add_at": 0.0})
+            n += 1
+        cancel = [it["id"] for it in items if rng.random() < 0.35]
+        sources.append({"items": items, "lat": rng.choice([0, 0, 0.01]), "cancel": cancel, "pre_async": rng.random() < 0.5})
+    return {"mode": "loop", "start_us": start, "minutes": rng.randint(2, 3), "sources": sources, "kick_lat": {}, "kick_fail": []}
+
+
+def oracle_c16c(rec: Rec, info: Dict[str, Any], spec: Dict[str, Any]) -> "tuple[List[Violation], Counter]":
+    v: List[Violation] = []
+    cnt: Counter = Counter()
+    if info["loop_exc"] is not None:
+        v.append(Violation("loop-stopped", f"run_scheduler_loop ended: {info['loop_exc']}"))
+    owner = {it["id"]: si for si, s_ in enumerate(spec["sources"]) for it in s_["items"]}
+    cancelled = {sid for s_ in spec["sources"] for sid in s_.get("cancel", [])}
+    by_sid: Dict[str, List[Any]] = defaultdict(list)
+    for e in rec.ev:
+        if e["k"] in ("pre_send", "post_send", "kick", "kick_done") and e.get("sid") in owner:
+            by_sid[e["sid"]].append(e)
+    for sid, evs in by_sid.items():
+        seq = [(e["k"], e.get("src")) for e in evs if e["k"] != "kick_done"]
+        o = owner[sid]
+        unit = [("pre_send", o)] if sid in cancelled else [("pre_send", o), ("kick", None), ("post_send", o)]
+        cnt["loop_firings"] += sum(1 for x in seq if x[0] == "pre_send")
+        cnt["loop_cancelled_firings"] += sum(1 for x in seq if x[0] == "pre_send") if sid in cancelled else 0
+        # firings of one schedule do not overlap here (no latency on kick), so the sequence is a repetition of the
+        # unit; the last one may be cut by the end of the run
+        k = len(unit)
+        full, rest = seq[: len(seq) - len(seq) % k], seq[len(seq) - len(seq) % k:]
+        if full != unit * (len(full) // k) or rest != unit[: len(rest)]:
+            v.append(Violation("callback-sequence", f"schedule {sid} of source {o} ({'cancelled by its pre_send' if sid in cancelled else 'not cancelled'}) fired from "
+                               f"the scheduler loop: observed {seq[:9]}, expected repetitions of {unit}"))
+    for sid in owner:
+        if sid.startswith("c") and not by_sid.get(sid) and spec["sources"][owner[sid]]["items"][0].get("cron") == "* * * * *" and sid == spec["sources"][owner[sid]]["items"][0]["id"]:
+            v.append(Violation("callback-sequence", f"every-minute schedule {sid} never fired in {spec['minutes']} minutes"))
+    return v, cnt
+
+
 class C16(Check):
     pid = "C16"
     rule = ("Workload A: real TaskiqScheduler.on_ready() on schedules with random task name / JSON-tree args / kwargs / "
@@ -856,16 +964,19 @@ class C16(Check):
             "LabelScheduleSource over 1-4 tasks (own / foreign-broker / shared-broker) each with 0-5 entries {cron, "
             "time, invalid}, duplicates and equal times across tasks; one-shots fired in random order through "
             "on_ready; oracle: listing multiset == declared cron/time entries of own tasks; each firing removes "
-            "exactly one entry of that task with that time and nothing else. Non-trivial: A with >=1 label or arg and "
+            "exactly one entry of that task with that time and nothing else. Workload C: real run_scheduler_loop over 2-3 "
+            "recording sources whose schedules are due, some cancelled by their own source's (sync or async) pre_send; "
+            "oracle: per schedule the events are repetitions of pre_send[owner] (kick post_send[owner])? . Non-trivial: A with >=1 label or arg and "
             "not cancelled, B with >=1 firing; distinct = distinct payload shapes / entry layouts.")
     floors = {"counters.on_ready_cases": 1500, "counters.cancelled": 300, "counters.label_firings": 1000,
-              "counters.label_listings": 2000}
+              "counters.label_listings": 2000, "counters.loop_firings": 1000, "counters.loop_cancelled_firings": 200}
     quick_cases = 8000
     thorough_cases = 200000
 
     def cases(self, rng: random.Random, tier: str, shard: int, nshards: int) -> Iterator[Any]:
         while True:
-            yield gen_c16a(rng) if rng.random() < 0.5 else gen_c16b(rng)
+            r = rng.random()
+            yield gen_c16a(rng) if r < 0.47 else (gen_c16b(rng) if r < 0.94 else gen_c16c(rng))
 
     def run_case(self, spec: Dict[str, Any]) -> CaseResult:
         cr = CaseResult()
@@ -880,6 +991,15 @@ class C16(Check):
             cr.trace = rec
             for r in rec:
                 cr.events[r[0]] += 1
+        elif spec["mode"] == "loop":
+            rec_, info = run_c15(spec)
+            v, cnt = oracle_c16c(rec_, info, spec)
+            cr.counters.update(cnt)
+            cr.nontrivial = cnt["loop_firings"] > 0
+            cr.sig = jhash(["C", [(e["k"], e.get("sid"), e.get("src")) for e in rec_.ev]])
+            cr.trace = [f"+{(e['us'] - spec['start_us']) / 1e6:.3f}s {e['k']} " + " ".join(f"{k}={x}" for k, x in e.items() if k not in ("i", "us", "k")) for e in rec_.ev[:60]]
+            for e in rec_.ev:
+                cr.events["loop:" + e["k"]] += 1
         else:
             v, obs = run_c16b(spec)
             cr.counters["label_firings"] += len(obs["fired"])
